@@ -1,5 +1,3 @@
 """Claimed evidence level per property (mirrors MANIFEST.json) and a one-line explanation."""
-from pyvc.run import LEVELS, EXPLAIN
-
-LEVELS.update({k: "proof" for k in ("C18", "C06", "C13", "C15", "C16", "C17")})
-EXPLAIN.update({"C18": "contracts on the random primitives discharged by z3 for all inputs; bounded layer as extra refuter"})
+LEVELS = {k: "proof" for k in ("C18", "C06", "C13", "C15", "C16", "C17")}
+EXPLAIN = {}
